@@ -25,6 +25,9 @@ func walkWithConds(p *Path, f func(e *Event, conds []Cond, inRep []*Event)) {
 			if len(extra) > 0 {
 				conds = append(append([]Cond(nil), conds...), extra...)
 			}
+			if len(e.Own) > 0 {
+				conds = append(append([]Cond(nil), conds...), e.Own...)
+			}
 			f(e, conds, reps)
 			if e.Kind == EvRep && e.Partial && e.Inv != nil {
 				extra = append(extra, Cond{V: e.Inv, Taken: true})
@@ -508,6 +511,12 @@ func (s *safety) dischargePanicSite(p *Path, ix *pathIndex, e *Event, conds []Co
 				if n, isL := affOf(e.IntType2Len(x)).IsConst(); (unsigned || nonNegative(m.Args[0], conds)) && isL && k <= n {
 					return true, "index is a value modulo a constant no larger than the array"
 				}
+			}
+		}
+		if os.Getenv("FPDEBUG") == "index" {
+			fmt.Fprintln(os.Stderr, "INDEX", i.Pretty(), "len", ln.Pretty(), "ncond", e.NCond, "own", len(e.Own))
+			for _, c := range conds {
+				fmt.Fprintln(os.Stderr, "   cond", c.String())
 			}
 		}
 		return false, fmt.Sprintf("index %s not provably within [0, %s)", i.Pretty(), ln.Pretty())
